@@ -133,13 +133,27 @@ def master_equations(par: dict, tree, survival: bool, steps_per_unit=4000):
                 y[0] *= (1 - rho)
         return y[0]
 
+    def p0_young(a):
+        """p0 at age a seen from the younger side (the rho event at a, if any, not applied yet)"""
+        if a == 0:
+            return 1.0
+        y = [1.0, 0.0]
+        for b, rho in bnd:
+            if b == 0:
+                y[0] *= (1 - rho)
+        return integrate(y, 0.0, a)[0]
+
     def up(node, to_age):
         """branch density of the lineage above `node`, carried up to age `to_age`; returns log g"""
         a = node[0]
         if len(node) == 1:
             at_boundary = [rho for b, rho in bnd if b == a]
             if at_boundary and at_boundary[0] > 0:
-                g0 = at_boundary[0]  # rho-sampled
+                # rho-sampled at the end of forward epoch j: removed with probability r_j, otherwise it stays and
+                # must have no sampled descendant afterwards (p0 on the younger side of the boundary)
+                j = next(k for k in range(m) if T - t[k + 1] == a)
+                r = 1.0 if par.get("r") is None else par["r"][j]
+                g0 = at_boundary[0] * (r + (1 - r) * p0_young(a))
             else:
                 i = epoch_of_age(a, left_open=True) if at_boundary else epoch_of_age(a)
                 psi = par["psi"][min(max(i, 0), m - 1)]
